@@ -55,8 +55,20 @@ def _mutate(ev):
     return ev
 
 
+def _case_of_event(ev):
+    """--replay: the generated case is looked up by id in the last run's case file (one setting only)"""
+    if ev.get("ev") in ("FormatFile", "FormatSkip"):
+        return dict(kind="file", id="replay", path=ev["src"], cfgs=[ev.get("cfg", [80, 2])])
+    path = os.path.join(vlib.workdir("C12"), "mc_format.cases.ndjson")
+    if os.path.exists(path):
+        for c in vlib.read_ndjson(path):
+            if c.get("id") == ev.get("id"):
+                return dict(c, cfgs=[ev["cfg"]])
+    raise vlib.ToolError("case %s not found: run ./check C12 first" % ev.get("id"))
+
+
 C12 = dict(
-    family="format", trace_module="Trace_Format.tla",
+    family="format", trace_module="Trace_Format.tla", case_of_event=_case_of_event,
     models=[dict(name="mc_format", module="MC_Format.tla",
                  cfg=dict(quick="MC_Format_quick.cfg", thorough="MC_Format_thorough.cfg"), cases=_case)],
     extra_traces=_files,
